@@ -107,7 +107,11 @@ func vpCrossRead(tag string, b []byte) {
 // builder output: current writer -> reference reader and reference writer -> current reader
 func vpH_C10_cross() {
 	g := vpNewGen(0)
-	docs := g.batch("b", 0, 2, []int{0, 1, 2, 3, 4, 5, 6, 7, 9})
+	max := 2
+	if vpThorough() {
+		max = 3
+	}
+	docs := g.batch("b", 0, max, []int{0, 1, 2, 3, 4, 5, 6, 7, 9})
 	mode := g.mode("b")
 	g.done()
 	cs, _, err := newWithChunkMode(vpDocs(docs), vpNormCalc, mode)
@@ -122,8 +126,12 @@ func vpH_C10_cross() {
 // merger output, both directions
 func vpH_C10_crossmerge() {
 	g := vpNewGen(0)
-	a := g.batch("A", 1, 2, []int{2, 5, 7})
-	b := g.batch("B", 0, 1, []int{2, 5})
+	tplA, tplB, maxB, ncfg := []int{2, 5, 7}, []int{2, 5}, 1, 2
+	if vpThorough() {
+		tplA, tplB, maxB, ncfg = vpMergeTemplates, vpMergeTemplates, 2, len(vpMergeCfgs)
+	}
+	a := g.batch("A", 1, 2, tplA)
+	b := g.batch("B", 0, maxB, tplB)
 	vpSetLengths(a)
 	vpSetLengths(b)
 	drops := make([]*roaring.Bitmap, 2)
@@ -133,7 +141,7 @@ func vpH_C10_crossmerge() {
 	g.done()
 	// the pinned reference cannot load a zero-survivor merge (a defect of the reference itself): excluded
 	vpAssume(len(vpSurvivors([][]*vpDoc{a, b}, dropped)) > 0)
-	cfg := vpMergeCfgs[vpChoice("cfg", 2)]
+	cfg := vpMergeCfgs[vpChoice("cfg", ncfg)]
 	ca, cb := vpBuild(a, cfg.modeA), vpBuild(b, cfg.modeB)
 	ra, _, err := iceref.XNewWithChunkMode(vpDocs(a), vpNormCalc, cfg.modeA)
 	vpMust(err, "reference builder")
